@@ -256,12 +256,14 @@ defvjp(
     lambda ans, start, stop, num: unbroadcast_f(stop, lambda g: anp.tensordot(anp.linspace(0.0, 1.0, num), g, 1)),
 )
 
-defvjp(
-    anp._astype,
-    lambda ans, A, dtype, order="K", casting="unsafe", subok=True, copy=True: lambda g: anp._astype(
-        g, A.dtype
-    ),
-)
+def grad_astype(ans, A, dtype, order="K", casting="unsafe", subok=True, copy=True):
+    if not onp.issubdtype(onp.result_type(ans), onp.inexact):
+        # conversion to an integer or boolean type is piecewise constant
+        return lambda g: anp.zeros_like(A)
+    return lambda g: anp._astype(g, A.dtype)
+
+
+defvjp(anp._astype, grad_astype)
 
 
 # ----- Trickier grads -----
